@@ -541,7 +541,11 @@ impl Exec {
                 replicas.push(r);
             }
             let mut rxs = vec![];
+            // receivers learn the configuration from the wire: the 12-byte OTI, serialised by the
+            // sender and parsed by the receiver
+            let cfg_rx = ObjectTransmissionInformation::deserialize(&cfg.serialize());
             for (i, spec) in setup.receivers.iter().enumerate() {
+                let cfg = cfg_rx;
                 let imp = build_rx(spec.kind, spec.threshold, &oti, &cfg, &ks);
                 let mirror = spec.mirror.map(|k| build_rx(k, if i % 2 == 0 { None } else { spec.threshold }, &oti, &cfg, &ks));
                 rxs.push(Rx {
